@@ -18,6 +18,8 @@ type Script = Arc<Mutex<HashMap<String, VecDeque<Step>>>>;
 struct Scripted {
     script: Script,
     log: Log,
+    /// another live actor a callback may link this actor to (`linkobs` action)
+    observer: Option<ractor::ActorCell>,
 }
 
 struct CancelGuard {
@@ -48,6 +50,11 @@ impl Scripted {
                 }
                 "msg" => {
                     let _ = myself.cast(1u64);
+                }
+                "linkobs" => {
+                    if let Some(o) = &self.observer {
+                        myself.link(o.clone());
+                    }
                 }
                 "supevt" => ractor::verif_hooks::lifecycle::verif_send_supervisor_evt(&myself.get_cell()),
                 _ => {}
@@ -138,7 +145,13 @@ pub fn run(a: &Args) {
             sup.stop(None);
             let _ = sup_handle.await;
         }
-        let actor = Scripted { script: script.clone(), log: log.clone() };
+        let observer = if a.opt_u128("obs").unwrap_or(0) == 1 {
+            let (o, _h) = Actor::spawn(None, Sup { log: log.clone() }, ()).await.unwrap();
+            Some(o.get_cell())
+        } else {
+            None
+        };
+        let actor = Scripted { script: script.clone(), log: log.clone(), observer: observer.clone() };
         let res = if with_sup { Actor::spawn_linked(name.clone(), actor, (), sup.get_cell()).await } else { Actor::spawn(name.clone(), actor, ()).await };
         match res {
             Err(e) => {
@@ -152,6 +165,9 @@ pub fn run(a: &Args) {
                     log.lock().unwrap().push(format!("name_registered:{}", ractor::registry::where_is(n.clone()).is_some() as u8));
                 }
                 log.lock().unwrap().push(format!("sup_children:{}", sup.get_children().len()));
+                if let Some(o) = observer.as_ref() {
+                    log.lock().unwrap().push(format!("obs_children:{}", o.get_children().len()));
+                }
             }
             Ok((r, handle)) => {
                 log.lock().unwrap().push("start_ok".to_string());
